@@ -4,7 +4,8 @@
    compared by the boolean functions below.  This takes extraction (ExtrOcamlBasic,
    ExtrOcamlZBigInt, ExtrOcamlNatBigInt), zarith and the OCaml compiler out of the trusted base
    for the sampled cases: a disagreement means the program that was run against the
-   implementation is not the model the theorems are about.  Definitions only. *)
+   implementation is not the model the theorems are about.  Definitions, and the lemmas saying
+   that an answer counted as "agreed" is an equality of values. *)
 From LzVerif Require Import Base.Bytes.
 
 (* What the driver printed: "OK v" / "ERR c" / "PANIC" (the panic code is not printed) / "FUEL". *)
@@ -53,4 +54,38 @@ Proof.
     try reflexivity; try discriminate.
   - apply andb_true_iff in H as [H1 H2]. apply Z.eqb_eq in H1. apply IH in H2. congruence.
   - injection H as -> ->. apply andb_true_iff; split; [apply Z.eqb_refl | apply IH; reflexivity].
+Qed.
+
+Lemma zpair_eqb_eq a b : zpair_eqb a b = true <-> a = b.
+Proof.
+  destruct a as [a1 a2], b as [b1 b2]; unfold zpair_eqb; cbn [fst snd]. rewrite andb_true_iff, !Z.eqb_eq.
+  split; [intros [-> ->]; reflexivity | intros H; injection H as -> ->; split; reflexivity].
+Qed.
+
+(* "agreed" on a value means the model function returned exactly that value *)
+Lemma x_outcome_ok {A} (eqb : A -> A -> bool) (o : outcome A) (b : A) :
+  (forall x y, eqb x y = true -> x = y) -> x_outcome eqb o (XOk b) = true -> o = Ok b.
+Proof. intros Heq; destruct o as [a|c|c|]; cbn [x_outcome]; intros H; try discriminate. f_equal; apply Heq, H. Qed.
+
+Lemma x_outcome_err {A} (eqb : A -> A -> bool) (o : outcome A) (c : Z) :
+  x_outcome eqb o (XErr c) = true -> o = Err c.
+Proof. destruct o as [a|d|d|]; cbn [x_outcome]; intros H; try discriminate. apply Z.eqb_eq in H; congruence. Qed.
+
+Lemma x_outcome_panic {A} (eqb : A -> A -> bool) (o : outcome A) :
+  x_outcome eqb o XPanic = true -> exists c, o = Panic c.
+Proof. destruct o as [a|d|d|]; cbn [x_outcome]; intros H; try discriminate. eexists; reflexivity. Qed.
+
+Lemma x_option_eq (o e : option (list Z)) : x_option zlist_eqb o e = true -> o = e.
+Proof.
+  destruct o as [a|], e as [b|]; cbn [x_option]; intros H; try discriminate; [|reflexivity].
+  f_equal; apply zlist_eqb_eq, H.
+Qed.
+
+(* an empty list of failed identifiers means every listed comparison returned true *)
+Lemma x_failed_nil (l : list (Z * bool)) : x_failed l = [] -> forall k b, In (k, b) l -> b = true.
+Proof.
+  unfold x_failed; induction l as [|[k0 b0] l IH]; intros H k b Hin; [destruct Hin|].
+  cbn [filter snd] in H. destruct b0; cbn [negb] in H.
+  - destruct Hin as [E|Hin]; [congruence | eapply IH; eauto].
+  - discriminate.
 Qed.
